@@ -40,6 +40,8 @@ struct Ctx {
 };
 
 inline Ctx &ctx() { static Ctx c; return c; }
+// id of the case being executed; printed if a sanitizer or a fatal signal ends the process
+inline std::string &current_case() { static std::string s; return s; }
 
 inline void init(int argc, char **argv, const char *id)
 {
@@ -176,3 +178,9 @@ inline int finish()
 }
 
 } // namespace vp
+
+// AddressSanitizer calls this just before it prints a report: say which case was running.
+extern "C" __attribute__((used, visibility("default"))) inline void __asan_on_error()
+{
+    fprintf(stderr, "CASE: %s\n", vp::current_case().c_str());
+}
